@@ -333,7 +333,10 @@ class Vector(AutoSerialize):
         result = []
         for idx in np.ndindex(*[len(i) for i in indices_arrays]):
             src_idx = tuple(ind[i] for ind, i in zip(indices_arrays, idx))
-            result.append(self._data[src_idx[0]][src_idx[1]])
+            ref = self._data
+            for i in src_idx:
+                ref = ref[i]
+            result.append(ref)
 
         return result
 
@@ -474,12 +477,14 @@ class Vector(AutoSerialize):
 
         # Create new shape and data
         new_shape = [len(i) for i in indices]
-        new_data = [[None] * new_shape[-1] for _ in range(new_shape[0])]
 
-        # Fill the new data structure
-        for out_idx in np.ndindex(*new_shape):
-            src_idx = tuple(ind[i] for ind, i in zip(indices, out_idx))
-            new_data[out_idx[0]][out_idx[1]] = self._data[src_idx[0]][src_idx[1]]
+        # Gather the addressed cells, one nesting level per fixed dimension
+        def gather(data: Any, dim: int) -> Any:
+            if dim == len(indices):
+                return data
+            return [gather(data[i], dim + 1) for i in indices[dim]]
+
+        new_data = gather(self._data, 0)
 
         # Create new Vector
         vector_new = Vector.from_shape(
